@@ -467,7 +467,12 @@ def judge(run):
 
 
 def attribute_h(run, v):
-    """violations of a run in which F-C07h's history occurred and which are of the kinds that history explains (an internal
+    """The finding is identified by the HISTORY (overlapped): in such a run the two threads race on self._sock, _in_packet and
+    _out_packet, and what is observed afterwards varies with the schedule (four shapes were analysed, see KNOWN_FINDINGS.txt; a fifth,
+    struct.error in _handle_pubackcomp on a clobbered _in_packet, turned up with other seeds).  Every violation of such a run is
+    reported under the finding's signature, except the two that have findings of their own (F-C07f, F-C07g) and the static
+    unlocked-write observations.  Runs without that history - and every other scenario - are judged as before.
+    Original, narrower description: violations of the kinds that history explains (an internal
     AttributeError on self._sock inside reconnect()/the loop, a stall / lost wake-up on a replaced socket, a connection opened
     by the loop thread's own reconnect whose CONNECT the application thread's reconnect() then drains from the queue) are
     reported under the finding's signature; everything else stays as it is"""
@@ -476,7 +481,7 @@ def attribute_h(run, v):
     out, folded = [], []
     for x in v:
         sig = x["signature"]
-        if sig in H_KINDS or sig == SIG_A or (sig.startswith("internal-error:AttributeError@") and "NoneType" in x["what"] and "_sock" in x["what"]):
+        if sig not in (SIG_F, SIG_G) and not sig.startswith("unlocked-write:"):
             folded.append(x)
         else:
             out.append(x)
